@@ -470,11 +470,13 @@ class TradingEnv(gymnasium.Env):
             the method process_<EventName>) will update their values
             accordingly.
         """
-        AbstractContract.now = event.time
-        self._now = event.time
         if self._is_new_date(event.time):
             # 'event' is the first event of the day. Notify that it's a new date
             self.notify(EventNewDate(self._last_event.time, self.broker))
+        # Set the clock after the (recursive) new date notification, which
+        # would otherwise leave the clock at the time of the previous event.
+        AbstractContract.now = event.time
+        self._now = event.time
         event.notify(self._observers)
         self._last_event = event
 
